@@ -215,9 +215,12 @@ def gen_config(rng: random.Random, *, rl_prob=0.25, kinds=None, loss_kinds=None,
         "loss": gen_loss(rng, D, loss_kinds),
         "model": {"kind": rng.choice(list(model_kinds)), "D": D,
                   "extreme": (rng.choice([0.1, 0.3]) if rng.random() < extreme_prob else 0.0)},
-        "N": N, "sim_length": rng.choice([None, None, N, N + 5]), "real_seed": rng.randrange(1000),
+        "N": N, "sim_length": None, "real_seed": rng.randrange(1000),
         "ensemble": rng.randint(1, 3), "cal_seed": rng.randrange(2 ** 31), "convergence_precision": None,
     }
+    sl = rng.choice([None, None, N, N + 5])
+    # a simulation length different from the data length only makes sense for losses that compare summaries
+    cfg["sim_length"] = sl if cfg["loss"]["cls"] in ("msm", "gsl", "likelihood") or sl in (None, N) else None
     return cfg
 
 
@@ -311,6 +314,7 @@ class CalSim:
             if f["kind"] == "crash":
                 raise SimCrash(f"crash at model call {idx}")
             raise InjectedFault(f"model call {idx}")
+        models.SCRIPT["i"] = idx      # a scripted model answers by task index, whatever the completion order
         return func(*args, **kwargs)
 
     def on_complete(self, idx, k, res):
@@ -684,3 +688,101 @@ def shrink_scn(scn: dict):
         c = copy.deepcopy(scn)
         c["config"]["scheduler"]["agent"] = {"kind": "scripted", "script": [0, 1, 2]}
         yield c
+
+
+def _feq(a, b):
+    """float equality that treats NaN == NaN and compares bit patterns otherwise"""
+    a = np.float64(a)
+    b = np.float64(b)
+    return a.tobytes() == b.tobytes() or (np.isnan(a) and np.isnan(b))
+
+
+def check_history(sim: "CalSim", pristine_loss=None, ret=None):
+    """RefHistory (C02): what the five arrays must contain, rebuilt from the seam recordings.
+    Returns a list of (clause, site, detail)."""
+    cal = sim.cal
+    out = []
+    n = int(cal.n_sampled_params)
+    arrays = {"params_samp": cal.params_samp, "losses_samp": cal.losses_samp, "series_samp": cal.series_samp,
+              "batch_num_samp": cal.batch_num_samp, "method_samp": cal.method_samp}
+    for name, a in arrays.items():
+        if len(a) != n:
+            out.append(("length", name, f"len({name}) = {len(a)} but the sample counter is {n} "
+                                       f"(lengths: { {k: len(v) for k, v in arrays.items()} })"))
+    if out:
+        return out
+    done = sim.completed_batches(cal)
+    rows = 0
+    E = cal.ensemble_size  # noqa: N806
+    for ordinal, b in enumerate(done):
+        h, bs = b.hist_len, len(b.returned)
+        if h != rows:
+            out.append(("rows-unaccounted", b.cls, f"batch starting at row {h} but {rows} rows are accounted for by earlier batches"))
+            return out
+        sl = slice(h, h + bs)
+        if cal.params_samp[sl].tobytes() != b.returned.tobytes():
+            out.append(("params-not-proposed", b.cls, f"rows {h}..{h + bs - 1} of params_samp differ from what {b.cls}.sample() returned: "
+                                                      f"{cal.params_samp[sl].tolist()} vs {b.returned.tolist()}"))
+        if len(b.calls) != bs * E:
+            out.append(("model-call-count", b.cls, f"batch of {bs} points with ensemble {E} made {len(b.calls)} model calls"))
+        else:
+            for r in range(bs):
+                for e in range(E):
+                    idx, theta, N, seed, result = b.calls[r * E + e]  # noqa: N806
+                    if theta is None or np.asarray(theta).tobytes() != cal.params_samp[h + r].tobytes():
+                        out.append(("model-called-on-other-vector", b.cls,
+                                    f"row {h + r} member {e}: model called with {np.asarray(theta).tolist()}, recorded parameters {cal.params_samp[h + r].tolist()}"))
+                        break
+                    if N != cal.N:
+                        out.append(("sim-length", b.cls, f"model called with N={N}, configured simulation length {cal.N}"))
+                        break
+                    if result is None or np.asarray(result).tobytes() != cal.series_samp[h + r, e].tobytes():
+                        out.append(("series-not-model-output", b.cls,
+                                    f"series_samp[{h + r}, {e}] is not the output of the model run on that row's parameters with seed {seed} (task {idx})"))
+                        break
+                else:
+                    continue
+                break
+        if len(b.losses) != bs:
+            out.append(("loss-call-count", b.cls, f"batch of {bs} points made {len(b.losses)} loss evaluations"))
+        else:
+            for r in range(bs):
+                din, val = b.losses[r]
+                if din != arr_digest(cal.series_samp[h + r]):
+                    out.append(("loss-on-other-series", b.cls, f"the loss recorded for row {h + r} was computed on series that are not series_samp[{h + r}]"))
+                    break
+                if not _feq(val, cal.losses_samp[h + r]):
+                    out.append(("loss-not-recorded", b.cls, f"losses_samp[{h + r}] = {cal.losses_samp[h + r]!r} but the loss function returned {val!r} for that row"))
+                    break
+                if pristine_loss is not None:
+                    try:
+                        again = pristine_loss.compute_loss(cal.series_samp[h + r], cal.real_data)
+                    except Exception as e:  # noqa: BLE001
+                        again = None
+                        out.append(("loss-recompute-raises", type(e).__name__, f"pristine loss raised {e!r} on row {h + r}"))
+                        break
+                    if not _feq(again, cal.losses_samp[h + r]):
+                        out.append(("loss-not-a-function-of-row", type(pristine_loss).__name__,
+                                    f"losses_samp[{h + r}] = {cal.losses_samp[h + r]!r}; a pristine copy of the loss gives {again!r} on exactly those series (stateful loss?)"))
+                        break
+        if not (cal.batch_num_samp[sl] == ordinal).all():
+            out.append(("batch-label", b.cls, f"rows {h}..{h + bs - 1} (batch #{ordinal} of the calibration) carry batch labels {cal.batch_num_samp[sl].tolist()}"))
+        want = cal.samplers_id_table.get(b.cls)
+        if not (cal.method_samp[sl] == want).all():
+            out.append(("sampler-label", b.cls, f"rows {h}..{h + bs - 1} produced by {b.cls} (id {want}) carry sampler labels {cal.method_samp[sl].tolist()}"))
+        rows += bs
+    if rows != n:
+        out.append(("rows-unaccounted", "tail", f"history has {n} rows, recorded completed batches account for {rows}"))
+    if ret is not None:
+        rp, rl = ret
+        if len(rp) != n or len(rl) != n:
+            out.append(("return-length", "calibrate", f"calibrate() returned {len(rp)} rows, history has {n}"))
+        else:
+            fin = ~np.isnan(rl)
+            if (np.diff(rl[fin]) < 0).any():
+                out.append(("return-order", "calibrate", f"returned losses are not non-decreasing: {rl.tolist()[:12]}"))
+            a = sorted((tuple(p), repr(float(l))) for p, l in zip(rp.tolist(), rl.tolist()))
+            b2 = sorted((tuple(p), repr(float(l))) for p, l in zip(cal.params_samp.tolist(), cal.losses_samp.tolist()))
+            if a != b2:
+                out.append(("return-content", "calibrate", "returned (parameter, loss) pairs are not the recorded ones"))
+    return out
